@@ -51,6 +51,8 @@ class ObservedDevice:
         self.client_role = False       # the device acted as a client (outside the server-role model)
         self.odd = []                  # observations the oracle interface cannot express
         self.dcc = 0
+        self.dcc_name = dcc or 'enable'
+        self.stopped = False           # the DCC service changed dccEnableDisable: d_dcc is read-only in the model, what follows is outside it
         if dcc:
             self.app.smap.dccEnableDisable = dcc
             self.dcc = {'enable': 0, 'disable': 1, 'disableInitiation': 2}[dcc]
@@ -239,6 +241,8 @@ class ObservedDevice:
     def rx(self, node, frame, bcast=False):
         """node (a vnet.RawNode) sends the octets to the device; everything due at this instant runs"""
         from bacpypes.pdu import LocalBroadcast
+        if self.stopped:
+            return []
         now = self.now_ms()
         for k in self.rec:
             self.rec[k] = []
@@ -248,9 +252,13 @@ class ObservedDevice:
         ev = 'ERx %d (mkFrame %s %s %s) %s' % (now, _nl(node.address.addrAddr), 'true' if bcast else 'false', _nl(frame), self._svc(frame))
         self.events.append(ev)
         self.expected += self._outs() + self._state()
+        if self.app.smap.dccEnableDisable != self.dcc_name:
+            self.stopped = True
         return errs
 
     def adv(self, seconds):
+        if self.stopped:
+            return
         now = self.now_ms()
         self.sniff.frames.clear()
         self.w.clock.run(seconds)
@@ -327,6 +335,8 @@ def scenario_cases(rng, tier, pool, other_confirmed, unconf, stats):
             return
         if od.client_role:
             stats['client_role_seen'] = stats.get('client_role_seen', 0) + 1
+        if od.stopped:
+            stats['cut_at_dcc_change'] = stats.get('cut_at_dcc_change', 0) + 1
         out.append(_case(Case, kind, od, desc))
 
     # garbage of every layer interleaved with a valid request, then a valid ReadProperty
